@@ -22,10 +22,14 @@ META = {
             'ShutdownClean, NoWorkerLeft; the as-implemented switches reproduce three races. The real SecopClient is '
             'executed under a deterministic scheduler that owns every thread switch (all schedules with <=2 '
             'preemptions at synchronisation points, plus random schedules; thorough adds line-level preemption) in '
-            'virtual time, and every execution is validated by TLC against the observable-level specification.',
+            'virtual time - over a scripted connection and over the real AsynTcp on a fake socket layer (peer closing or '
+            'resetting), with experimental requests / replies, requests repeated after a time-out, and a client that '
+            'reconnects by itself (refused attempts, node coming back, state callbacks, shutdown ending the reconnect '
+            'thread) - and every execution is validated by TLC against the observable-level specification.',
     'note': 'Trusted: TLC, the deterministic scheduler (harness/detsched.py) and the fake connection; CPython GIL '
-            'semantics for yield-point granularity. Bounds: 2-3 callers, one connection drop, one user disconnect. '
-            'Fault placement restricted: drop/disconnect start after all callers passed queue_request\'s connect().',
+            'semantics for yield-point granularity. Bounds: 2-4 callers, one connection drop (optionally one '
+            'reopening), one user disconnect. Fault placement: drop/disconnect start after all callers passed '
+            'queue_request\'s connect(), except in the late-caller / reconnect scenarios.',
     'tech': 'TLA+/PlusCal spec + TLC model checking; deterministic-scheduler exploration of the real code; '
             'TLC trace validation (Trace_ClientObs) with named deviations',
     'ref': 'DESIGN.md section 5 C11',
